@@ -46,7 +46,7 @@ def shape_vars(c, bound=()):
     out = []
 
     def term(t):
-        if t[0] in ("a", "b", "kidv", "val0", "m") and t[1] not in out and t[1] not in bound_stack:
+        if t[0] in ("a", "b", "kidv", "val0", "m", "flatv") and t[1] not in out and t[1] not in bound_stack:
             out.append(t[1])
 
     bound_stack = list(bound)
@@ -115,6 +115,9 @@ def features(c):
     def term(t):
         if t[0] in ("b", "kidv", "val0", "m"):
             f.add(t[0])
+        if t[0] == "flatv":
+            f.add("kids")
+            f.add("flatv")
 
     def walk(c):
         k = c[0]
@@ -189,7 +192,7 @@ def show(c):
 
 
 def show_t(t):
-    return {"a": "%s.a", "b": "%s.b", "kidv": "%s.kid.v", "val0": "%s.vals[0]", "m": "%s.m()"}[t[0]] % t[1] if t[0] != "lit" else "k%d" % t[1]
+    return {"a": "%s.a", "b": "%s.b", "kidv": "%s.kid.v", "val0": "%s.vals[0]", "m": "%s.m()", "flatv": "flatten(%s.kids).v"}[t[0]] % t[1] if t[0] != "lit" else "k%d" % t[1]
 
 
 # ---------------------------------------------------------------------------------------------
@@ -240,6 +243,24 @@ class World:
             n = ctx.choice("nt", N + 1)
             self.dom["t"] = [PC(a=ctx.fresh_int("ta%d" % i)) for i in range(n)]
         self.evars: Dict[str, Any] = {}
+        self.flat_vars = set()
+
+        def _find_flat(c):
+            if c is None:
+                return
+            if c[0] == "cmp":
+                for t in (c[2], c[3]):
+                    if t[0] == "flatv":
+                        self.flat_vars.add(t[1])
+            elif c[0] == "in" and c[1][0] == "flatv":
+                self.flat_vars.add(c[1][1])
+            elif c[0] in ("and", "or"):
+                _find_flat(c[1]); _find_flat(c[2])
+            elif c[0] == "not":
+                _find_flat(c[1])
+            elif c[0] in ("exists", "forall"):
+                _find_flat(c[2])
+        _find_flat(cond)
 
     def index(self, v, o):
         return index_of(self.dom[v], o)
@@ -269,6 +290,11 @@ class World:
             return v.vals[0]
         if k == "m":
             return v.m()
+        if k == "flatv":
+            key = ("flat", t[1])
+            if key not in self.evars:
+                self.evars[key] = flatten(v.kids)  # one flattened-collection expression per variable
+            return self.evars[key].v
         raise ValueError(k)
 
     def build(self, c):
@@ -315,6 +341,8 @@ class World:
             return o.vals[0]
         if k == "m":
             return o.a + o.b
+        if k == "flatv":
+            return env["flat:" + t[1]].v  # flatten(v.kids) is a variable of its own, ranging over the kids of v's value
         raise ValueError(k)
 
     def truth(self, c, env):
@@ -370,12 +398,19 @@ class World:
         return out
 
     def assignments(self, free):
-        return [dict(zip(free, combo)) for combo in itertools.product(*[self.dom[v] for v in free])]
+        """assignments of the free variables; a flattened collection flatten(v.kids) used by the condition is one more variable
+        whose domain is the kids of v's value (no kids: no assignment)"""
+        out = [dict(zip(free, combo)) for combo in itertools.product(*[self.dom[v] for v in free])]
+        for fv in sorted(self.flat_vars):
+            out = [{**a, "flat:" + fv: q} for a in out for q in a[fv].kids]
+        return out
 
 
 def is_elseif_fragment(c):
     """C02's fragment: NNF, and_, or_ only between conditions over the same variables (then the built node is an ElseIf)"""
     k = c[0]
+    if "flatv" in features(c):
+        return False  # a flattened collection multiplies results per element: judged by C01 (set reading) only
     if k in ("cmp", "in", "has", "isa", "pred"):
         return True
     if k == "not":
@@ -398,7 +433,7 @@ def atoms(vars_, level):
     if level >= 1:
         out += [("cmp", "<=", ("a", x), ("b", x)), ("in", ("a", x), (0, 1)), ("cmp", "!=", ("a", x), ("lit", 0)), ("pred", x, 0)]
     if level >= 2:
-        out += [("cmp", "<", ("kidv", x), ("lit", 0)), ("cmp", ">=", ("val0", x), ("lit", 0)), ("cmp", "==", ("m", x), ("lit", 0)), ("isa", x), ("has", x, "w"), ("cmp", "<", ("lit", 0), ("a", x))]
+        out += [("cmp", "<", ("kidv", x), ("lit", 0)), ("cmp", ">=", ("val0", x), ("lit", 0)), ("cmp", "==", ("m", x), ("lit", 0)), ("isa", x), ("has", x, "w"), ("cmp", "<", ("lit", 0), ("a", x)), ("cmp", ">", ("flatv", x), ("lit", 0)), ("cmp", "==", ("flatv", x), ("a", x))]
     if y:
         out += [("cmp", "==", ("a", x), ("a", y)), ("cmp", "<", ("a", x), ("a", y))]
         if level >= 2:
